@@ -789,12 +789,14 @@ where
             let mut low_sc = None;
             let mut low_idx = None;
             for &pidx in self.grm.rule_to_prods(p_ridx).iter() {
-                let mut sc = 0;
+                // A rule that derives no sentence costs `u16::MAX`: a production that mentions one
+                // must not wrap round and look cheap.
+                let mut sc: u16 = 0;
                 for sym in self.grm.prod(pidx).iter() {
-                    sc += match *sym {
+                    sc = sc.saturating_add(match *sym {
                         Symbol::Rule(i) => self.min_sentence_cost(i),
                         Symbol::Token(i) => u16::from(self.token_costs[usize::from(i)]),
-                    };
+                    });
                 }
                 if low_sc.is_none() || Some(sc) < low_sc {
                     low_sc = Some(sc);
@@ -832,12 +834,12 @@ where
             let mut low_sc = None;
             let mut low_idxs = vec![];
             for &pidx in self.grm.rule_to_prods(p_ridx).iter() {
-                let mut sc = 0;
+                let mut sc: u16 = 0;
                 for sym in self.grm.prod(pidx).iter() {
-                    sc += match *sym {
+                    sc = sc.saturating_add(match *sym {
                         Symbol::Rule(s_ridx) => self.min_sentence_cost(s_ridx),
                         Symbol::Token(s_tidx) => u16::from(self.token_costs[usize::from(s_tidx)]),
-                    };
+                    });
                 }
                 if low_sc.is_none() || Some(sc) <= low_sc {
                     if Some(sc) < low_sc {
